@@ -608,6 +608,23 @@ Section Kernel.
     let s1 := mkS (s_ctx s) (s_ne s) (s_ni s) (s_leaves s) (s_nodes s) (s_ens s ++ [ks]) (s_slots s) in
     fold_left (fun st k => set_leaf_ens st k eid) ks s1.
 
+  (* repr(x) of an uncertain real evaluates x.u and then x.df, filling the cache; several error
+     messages of lib.py format their operands with {!r}, so a failing call can have this effect *)
+  Definition repr_effect (s : state) (i : nat) : state * option exn :=
+    match get_real s i with
+    | Err e => (s, Some e)
+    | Ok (j, o, c) =>
+        match prop_u s o c with
+        | Err e => (s, Some e)
+        | Ok (_, c1) =>
+            let s1 := set_cache s j o c1 in
+            match prop_df s1 o c1 with
+            | Err e => (s1, Some e)
+            | Ok (_, c2) => (set_cache s1 j o c2, None)
+            end
+        end
+    end.
+
   Definition step (s : state) (o : op) : state * out :=
     match o with
     | OpUreal x u df label indep =>
@@ -706,6 +723,16 @@ Section Kernel.
         | Ok (_, oa, _), Ok (_, ob, _) =>
             match set_correlation s r oa ob with
             | Ok s' => (push s' SErr, OutUnit)
+            | Err TypeError =>
+                (* set_correlation_real: "... got: {!r} and {!r}".format(x1,x2) *)
+                match repr_effect s a with
+                | (s1, Some e) => fail s1 e
+                | (s1, None) =>
+                    match repr_effect s1 b with
+                    | (s2, Some e) => fail s2 e
+                    | (s2, None) => fail s2 TypeError
+                    end
+                end
             | Err e => fail s e
             end
         | Err e, _ => fail s e
@@ -747,7 +774,14 @@ Section Kernel.
         match get_real s y, get_real s x with
         | Ok (_, oy, _), Ok (_, ox, _) =>
             match sensitivity s oy ox with
-            | Ok v => (push s (SNum v), OutVal v) | Err e => fail s e end
+            | Ok v => (push s (SNum v), OutVal v)
+            | Err RuntimeError =>
+                (* "{!r} is not an elementary or intermediate uncertain number".format(x) *)
+                match repr_effect s x with
+                | (s1, None) => fail s1 RuntimeError
+                | (s1, Some e) => fail s1 e
+                end
+            | Err e => fail s e end
         | Err e, _ => fail s e | _, Err e => fail s e
         end
     | OpUComp y x =>
